@@ -55,9 +55,19 @@ def _mag(rng):
 def shard(p):
     acc = Acc()
     rng = rng_for(p["seed"], PID, p["shard"])
-    d = Driver(p["bin"])
+    # every fourth shard evaluates with a logger installed at trace level (RUST_LOG): enabling logging must not change any result.
+    # (The vocabulary - which words mean what, measured scales - comes from a plain driver: a fault that logging switches on must not
+    # also shift the yardstick.)
+    log_env = {"RUST_LOG": "anything=trace"} if p["shard"] % 4 == 3 else None
+    d = Driver(p["bin"], env=log_env)
     try:
-        V = G.Vocab(d)
+        if log_env:
+            acc.context = {"trace_logging": True}
+            acc.count("shards_with_trace_logging_enabled")
+            with Driver(p["bin"]) as d_plain:
+                V = G.Vocab(d_plain)
+        else:
+            V = G.Vocab(d)
         acc.count("vocabulary_words", len(V.entries)) if p["shard"] == 0 else None
         cases = []
         bare = [e for e in V.entries if e["bare"]]
@@ -155,13 +165,49 @@ def shard(p):
                             cases.append(pair2)
                         else:
                             cases.insert(len(cases) - 1, pair2)
+        # the same letters as two blank-separated words and glued into one word with another meaning (m s | ms, m N | mN), combined by
+        # +, - and `to` in one query: mostly incommensurable, so the error is what is expected (seeds C03-h, C04-h)
+        forced = {}
+        conf = G.confusables(V)
+        for i in range(p["n"] // 16 if conf else 0):
+            a, b, ab = rng.choice(conf)
+            f1, f2 = [(a, 1), (b, 1)], [(ab, 1)]
+            forced[id(f1)] = "%s %s" % (a["word"], b["word"])
+            if rng.random() < 0.5:
+                f1, f2 = f2, f1
+            cases.append(("confusable", f1, f2))
+        # cancelling factors inside ONE glued word: a unit cancels its earlier occurrence and then comes back under another prefix in
+        # the same blank-free word (mm/mmm = 1/m, s*kg/kgg = s/g). Only pairs whose glued spelling has a single reading. (seed C02-h:
+        # cancelled entries swept between words but not inside one)
+        by_word = {e["word"]: e for e in V.entries}
+        glued = [(by_word[a_], by_word[b_]) for a_, b_ in p.get("glued", []) if a_ in by_word and b_ in by_word]
+        # (only glued words the tool can split at all: `1 mkm` is "not a valid unit" for the generated lexer - rejecting a word is allowed -
+        # whereas `1 mmm` is understood and refused for mixing two prefixes of one unit while both are alive)
+        rng.shuffle(glued)
+        greps = d.call_many([{"op": "query", "q": "1 %s%s" % (ep["word"], eq["word"])} for ep, eq in glued], timeout=300) if glued else []
+        glued = [g for g, r_ in zip(glued, greps) if not any("not a valid unit" in (it.get("err", {}).get("msg") or "") for it in (r_.get("items") or [{"err": {"msg": "not a valid unit"}}]))]
+        for i in range(p["n"] // 16 if glued else 0):
+            ep, eq = rng.choice(glued)
+            net = [(eq, -1)]
+            txt = "%s/%s%s" % (ep["word"], ep["word"], eq["word"])
+            if rng.random() < 0.6:
+                eb = V.pick(rng)
+                if eb["key"] != ep["key"]:
+                    net = [(eb, 1), (eq, -1)]
+                    txt = "%s*%s" % (eb["word"], txt)
+            _s, dn = V.factors_si(net)
+            f2 = V.factors_for_dims(rng, dn)
+            if not f2 or any(e["key"] == ep["key"] for e, _ in f2):
+                continue
+            forced[id(net)] = txt
+            cases.append(("cancel-reappear", net, f2) if rng.random() < 0.6 else ("cancel-reappear", f2, net))
         for (a, b) in p["matrix"]:
             ea, eb = first_by_unit.get(a), first_by_unit.get(b)
             if ea and eb:
                 cases.append(("matrix", [(ea, 1)], [(eb, 1)]))
         reqs, meta = [], []
         for kind, f1, f2 in cases:
-            t1 = G.text(f1, rng)
+            t1 = forced.get(id(f1)) or G.text(f1, rng)
             s1, d1 = V.factors_si(f1)
             as_, a = mag(rng)
             bs_, b = mag(rng)
@@ -176,7 +222,7 @@ def shard(p):
                     reqs.append({"op": "query", "q": q})
                     meta.append((kind + ":" + order, op, q, True, val * s1, d1, V.factors_parts(f1), t1, None))
                 continue
-            t2 = G.text(f2, rng)
+            t2 = forced.get(id(f2)) or G.text(f2, rng)
             s2, d2 = V.factors_si(f2)
             same = d1 == d2
             for op in ("+", "-", "to"):
@@ -247,12 +293,22 @@ def run(tier, seed):
         n = 16000
     else:
         n = 250000
+    # same-unit pairs under different prefixes whose glued spelling has a single reading (computed once: the reference segmentation
+    # of ~10^4 words is not free)
+    with Driver(bins["dbg"]) as d0:
+        V0 = G.Vocab(d0)
+    cand = []
+    for k, es in sorted(V0.by_key.items()):
+        es = [e for e in es if len(e["word"]) <= 3]
+        cand += [(ep["word"], eq["word"]) for ep in es for eq in es if ep["prefix"] != eq["prefix"]]
+    rng.shuffle(cand)
+    gl = [(a_, b_) for a_, b_ in cand[:1000] if len({(s_, dd) for s_, dd, iv in R.readings(a_ + b_)}) == 1]
     payloads = []
     for i in range(NCPU):
-        payloads.append({"seed": seed, "shard": i, "n": n // NCPU, "bin": bins["dbg"], "kind": "dbg", "matrix": pairs[i::NCPU]})
+        payloads.append({"seed": seed, "shard": i, "n": n // NCPU, "bin": bins["dbg"], "kind": "dbg", "matrix": pairs[i::NCPU], "glued": gl[i::NCPU * 2]})
     # the release build (wrapping arithmetic, no debug assertions) sees a quarter of the random workload in both tiers
     for i in range(NCPU):
-        payloads.append({"seed": seed, "shard": 100 + i, "n": n // NCPU // 4, "bin": bins["rel"], "kind": "rel", "matrix": []})
+        payloads.append({"seed": seed, "shard": 100 + i, "n": n // NCPU // 4, "bin": bins["rel"], "kind": "rel", "matrix": [], "glued": gl[NCPU + i::NCPU * 2]})
     acc = run_shards(shard, payloads)
     return finish(PID, tier, seed, "exploration", acc, RULE, t0,
                   assumptions=["exponent vectors and unit ids come from the frozen reference table (monitors/core/units_ref.py)",
@@ -263,6 +319,7 @@ def run(tier, seed):
 def replay(path):
     v = json.load(open(path))
     c = v["case"]
-    with Driver(build.build(c.get("build", "dbg"))["vdriver"]) as d:
+    from core.driver import replay_env
+    with Driver(build.build(c.get("build", "dbg"))["vdriver"], env=replay_env(c)) as d:
         print(json.dumps({"query": c["query"], "commensurable": c["commensurable"], "expected_si": c["expected_si"], "now": d.call({"op": "query", "q": c["query"]}).get("items")}, ensure_ascii=False))
     return 0
